@@ -32,12 +32,26 @@ class RecChunker:
 
 
 class FakeDatetime(_dt.datetime):
-    """`datetime.utcnow()` inside replicat.repository returns the world's controlled clock"""
+    """`datetime.utcnow()` inside replicat.repository returns the world's controlled clock.  The machine's LOCAL zone is not UTC
+    and its offset changes from one command to the next (two machines sharing a repository, travel, the DST fall-back hour):
+    `now()` without a zone returns `utcnow() + offset`, so code that records local time where UTC is documented misorders snapshots."""
     _now = _dt.datetime(2030, 1, 1, 0, 0, 0)
+    _offsets = [_dt.timedelta(hours=9), _dt.timedelta(hours=-5), _dt.timedelta(hours=5, minutes=30), _dt.timedelta(hours=-8)]
 
     @classmethod
     def utcnow(cls):
         return cls._now
+
+    @classmethod
+    def _offset(cls):
+        us = int((cls._now - _dt.datetime(2030, 1, 1)).total_seconds() * 1_000_000)
+        return cls._offsets[(us // 7 + us // 1000) % len(cls._offsets)]
+
+    @classmethod
+    def now(cls, tz=None):
+        if tz is None:
+            return cls._now + cls._offset()
+        return cls._now.replace(tzinfo=_dt.timezone.utc).astimezone(tz)
 
 
 def err_kind(e):
